@@ -207,6 +207,126 @@ def check_shape(case):
     return queries, (kind, tuple(dims), len(ids))
 
 
+HIST_SHAPES = [('line', [4]), ('grid', [3, 2]), ('discrete', [2, 0, 3]), ('discrete', [0, 2, 2]), ('discrete', [2, 2, 2])]
+
+
+def hist_ops(kind, dims):
+    """What can happen to a grid world between two lookups: cell components declared, declared again from a source of
+    another element type, removed; an agent sent (move_to) to coordinates next to the grid - accepted on single-layer
+    axes, which the spatial range check does not constrain - or moved about inside."""
+    ops = [['level', how] for how in ('int', 'int10', 'float', 'str', 'gen')] + [['rain'], ['drop', 'level'], ['drop', 'rain']]
+    d3 = list(dims) + [0] * (3 - len(dims))
+    narg = NARG.get(kind, 3)
+    for ax in range(narg):
+        for v in (-1, max(d3[ax], 1)):
+            p = [0, 0, 0]
+            p[ax] = v
+            ops.append(['walk', p[:narg]])
+    ops.append(['walk', [max(d3[0], 1) - 1, 0, 0][:narg]])       # an ordinary in-grid destination
+    return ops
+
+
+def history_case(case):
+    """A short history of such operations, then the full sweep: every in-range lookup returns that cell's current row
+    with all its components' values, every coordinate outside the grid is rejected."""
+    import numpy as np
+    reset_library()
+    kind, dims = case['kind'], case['dims']
+    model = new_model(seed=1)
+    world = mk(model, kind, dims, case.get('wrap', False))
+    d3 = list(dims) + [0] * (3 - len(dims))
+    ext = [max(e, 1) for e in d3]
+    n = ext[0] * ext[1] * ext[2]
+    narg = NARG.get(kind, 3)
+    cols = {}
+    walker = None
+    for op in case['ops']:
+        if op[0] == 'level':
+            how = op[1]
+            if how == 'int':
+                src = np.arange(n, dtype=np.int64) + 1
+            elif how == 'int10':
+                src = np.arange(n, dtype=np.int64) * 10
+            elif how == 'float':
+                src = np.linspace(0.5, n - 0.5, n)
+            elif how == 'str':
+                src = ['clay' if i % 2 else 'sand' for i in range(n)]
+            else:
+                src = None
+                world.add_cell_component('level', lambda pos, cells: pos[0] - pos[2] + 0.25 * pos[1])
+                cols['level'] = [None] * n
+                for z in range(ext[2]):
+                    for y in range(ext[1]):
+                        for x in range(ext[0]):
+                            cols['level'][x + y * ext[0] + z * ext[0] * ext[1]] = x - z + 0.25 * y
+            if src is not None:
+                world.add_cell_component('level', src)
+                cols['level'] = [v.item() if hasattr(v, 'item') else v for v in src]
+        elif op[0] == 'rain':
+            world.add_cell_component('rain', [i * i for i in range(n)])
+            cols['rain'] = [i * i for i in range(n)]
+        elif op[0] == 'drop':
+            if op[1] not in cols:
+                continue
+            world.remove_cell_component(op[1])
+            del cols[op[1]]
+        elif op[0] == 'walk':
+            if walker is None:
+                walker = Core.Agent('walker', model)
+                world.add_agent(walker)
+            try:
+                world.move_to(walker, *op[1])
+            except IndexError:
+                pass        # refused: the walker stays where it was
+        else:
+            raise ValueError(op)
+    queries = 0
+    for x in range(-1, ext[0] + 1):
+        for y in range(-1, ext[1] + 1):
+            for z in range(-1, ext[2] + 1):
+                inside = 0 <= x < ext[0] and 0 <= y < ext[1] and 0 <= z < ext[2]
+                args = [x, y, z][:narg]
+                if any(v != 0 for v in [x, y, z][narg:]):
+                    continue
+                queries += 1
+                try:
+                    row = lookup(world, args)
+                except IndexError:
+                    if inside:
+                        raise Violation(f'after {case["ops"]}: get_cell{tuple(args)} on shape {dims} raised IndexError for an '
+                                        f'in-range cell')
+                    continue
+                if not inside:
+                    raise Violation(f'after {case["ops"]}: get_cell{tuple(args)} outside shape {dims} did not raise IndexError',
+                                    expected='IndexError', observed=list(row['pos']))
+                cid = x + y * ext[0] + z * ext[0] * ext[1]
+                if tuple(row['pos']) != (x, y, z):
+                    raise Violation(f'after {case["ops"]}: get_cell{tuple(args)} on shape {dims} returned another cell\'s row',
+                                    expected=[x, y, z], observed=list(row['pos']))
+                if sorted(row.index) != sorted(['pos'] + list(cols)):
+                    raise Violation(f'after {case["ops"]}: the row of cell {(x, y, z)} on shape {dims} does not have exactly '
+                                    f'the world\'s cell components', expected=sorted(['pos'] + list(cols)),
+                                    observed=sorted(row.index))
+                for name, vals in cols.items():
+                    if row[name] != vals[cid]:
+                        raise Violation(f'after {case["ops"]}: component {name!r} in the row of cell {(x, y, z)} on shape '
+                                        f'{dims}', expected=vals[cid], observed=repr(row[name]))
+    return queries, ('hist', kind, tuple(dims), tuple(sorted(cols)))
+
+
+def history_cases(tier):
+    depth = 2 if tier == 'quick' else 3
+    for kind, dims in HIST_SHAPES:
+        ops = hist_ops(kind, dims)
+        for d in range(1, depth + 1):
+            for seq in itertools.product(ops, repeat=d):
+                # (a drop of something never declared is skipped inside: such sequences duplicate shorter ones)
+                if any(o[0] == 'drop' and not any(p[0] == ('level' if o[1] == 'level' else 'rain') for p in seq[:i])
+                       for i, o in enumerate(seq)):
+                    continue
+                yield {'leg': 'history', 'kind': kind, 'dims': dims, 'wrap': False, 'ops': [list(o) for o in seq]}
+
+
 def big_shape(case):
     """One very long axis (beyond 2**15 cells): the bijection is checked on every cell, row lookups on every 251st cell
     and the last ones (the row lookup costs a pandas access each)."""
@@ -242,7 +362,7 @@ def chunk_fn(ctx, chunk):
         ctx.traces += 1
         ctx.states += 1
         try:
-            q, out = hbfs._guard(big_shape if case['leg'] == 'big' else check_shape, case)
+            q, out = hbfs._guard({'big': big_shape, 'history': history_case}.get(case['leg'], check_shape), case)
             ctx.transitions += q
             ctx.outcome(out)
         except Violation as v:
@@ -266,14 +386,18 @@ def run(ctx):
               {'leg': 'big', 'kind': 'discrete', 'dims': [48, 40, 36]}]
     if ctx.small:
         cases = [c for c in cases if c['leg'] != 'big']
+    hist = [c for c in history_cases(ctx.tier) if not ctx.small or len(c['ops']) == 1]
+    cases += hist
     if ctx.tier == 'thorough':
         cases += [{'leg': 'big', 'kind': 'discrete', 'dims': [0, 0, 2 ** 17 + 5]}, {'leg': 'big', 'kind': 'grid', 'dims': [300, 300]},
                   {'leg': 'big', 'kind': 'discrete', 'dims': [2, 33000, 0]}]
     par.pmap(ctx, chunk_fn, [cases[i::ctx.procs * 2] for i in range(ctx.procs * 2)], procs=ctx.procs)
     for c in (cases[0], cases[27], cases[-1]):
         ctx.sample(c)
-    ctx.leg('shapes', shapes=len(cases))
+    ctx.leg('shapes', shapes=len(cases) - len(hist))
+    ctx.leg('history', sequences=len(hist), note='every sequence of <= 2 (thorough 3) declarations / redeclarations / removals '
+                                                 'of cell components and agent walks next to the grid, then the full sweep')
 
 
 def replay(case):
-    hbfs._guard(big_shape if case['leg'] == 'big' else check_shape, case)
+    hbfs._guard({'big': big_shape, 'history': history_case}.get(case['leg'], check_shape), case)
